@@ -9,7 +9,8 @@ Conventions
 * `Result<_, DataError>` = `Outcome _` with `Outcome.err .data` (messages are not modelled).
 * the harness is compiled with overflow checks: every `&s[a..b]` slice that can fail is an explicit
   `Outcome.panic "<site>"` (the `usize` subtractions of the current code cannot underflow: they are guarded).
-* `f64::from_str` is the parameter `parseFloat : List Char → Option F` (Rust `std` is in the trusted base;
+* `f64::from_str` followed by the finiteness guard (`nan` / `inf` / overflowing exponents are rejected as literals) is the
+  parameter `parseFloat : List Char → Option F` (Rust `std` is in the trusted base;
   the driver instantiates it with an exact decimal → binary64 conversion, see Driver/BuildDrv.lean).
 * `i32::from_str_radix` / `u32::from_str` are modelled by their documented grammar
   (`[+-]? digit+` resp. `+? digit+`, a lone sign is an error, out-of-range is an error).
